@@ -15,3 +15,5 @@ Definition inverts (f : R -> R) (lo hi tol : R) : Prop := forall y, lo <= y <= h
 Definition value_and_derivative (f : R -> R) (fd : R -> list R) (dom : R -> Prop) : Prop :=
   forall y, dom y -> nth 0 (fd y) 0 = f y /\ is_derive f y (nth 1 (fd y) 0) /\ 0 < nth 1 (fd y) 0.
 Definition open_unit (y : R) : Prop := -1 < y < 1.
+(* strictly increasing on a set *)
+Definition strictly_increasing_on (f : R -> R) (dom : R -> Prop) : Prop := forall x y, dom x -> dom y -> x < y -> f x < f y.
